@@ -32,6 +32,7 @@ type GenCfg struct {
 	MinParents int
 	ForkProb   float64
 	Leak       float64 // during a partition, probability that a tip of the other group is still accepted as parent (0 = strict partition)
+	LowEntropyIDs bool // event IDs whose first 8 (of 24) bytes are nearly constant; the content hash sits in the last 16 (instance-built DAGs only)
 	StrayProb  float64 // probability that a fork event is a stray twin nobody builds on (0 = the default 1/3)
 	PartProb   float64 // probability per event to start a partition period
 	TieHeavy   bool
@@ -395,7 +396,11 @@ func Generate(r *rand.Rand, cfg *GenCfg) (*DAG, *Inst, error) {
 			if err := g.Build(e); err != nil {
 				return d, g, fmt.Errorf("generator Build failed: %v", err)
 			}
-			e.SetHashID(0)
+			if cfg.LowEntropyIDs {
+				e.SetHashIDTail(0)
+			} else {
+				e.SetHashID(0)
+			}
 			if _, dup := g.In.DB[e.ID()]; dup {
 				continue
 			}
